@@ -461,6 +461,49 @@ def corner_on_edge_curved(rnd):
     raise RuntimeError("no corner-on-edge configuration generated")
 
 
+def tangent_corner_on_curved_edge(rnd):
+    """a valid quadratic triangle T1 whose first edge is the parabola y = a x^2 over [-w, w] (interior above it, apex (0, h))
+    and a straight triangle T2 with a corner P ON the parabola, one edge of T2 leaving P along the tangent of the parabola
+    (it lies outside T1: the parabola is convex) and the other edge entering the interior of T1: a tangential contact at a
+    corner that is a genuine vertex of the common region.  Corners of T2 relabelled, both tangent directions, rotated by a
+    multiple of 90 degrees and translated; all data dyadic."""
+    for _ in range(400):
+        a = Fr(rnd.choice([1, 1, 2, 1]), rnd.choice([1, 2, 4]))
+        w = Fr(rnd.randint(2, 4), 2)
+        h = a * w * w + Fr(rnd.randint(3, 8), 2)
+        A, B, Cc = (-w, a * w * w), (w, a * w * w), (Fr(0), h)
+        mid = lambda u, v: ((u[0] + v[0]) / 2, (u[1] + v[1]) / 2)     # noqa: E731
+        pts = [A, (Fr(0), -a * w * w), B, mid(A, Cc), mid(B, Cc), Cc]
+        t1 = [[q[0] for q in pts], [q[1] for q in pts]]
+        if not jacobian_bernstein_positive(t1, 2):
+            continue
+        x0 = Fr(rnd.randint(-2, 2), 4) * w
+        if abs(x0) >= w:
+            continue
+        P = (x0, a * x0 * x0)
+        sgn = rnd.choice([1, -1])
+        L = Fr(rnd.randint(2, 6), 2)
+        Q = (P[0] + sgn * L, P[1] + sgn * L * 2 * a * x0)
+        R = (P[0] + Fr(rnd.randint(-4, 4), 4), P[1] + Fr(rnd.randint(3, 10), 2))
+        cr = K.cross(P, Q, R)
+        if cr == 0:
+            continue
+        tri = [P, Q, R] if cr > 0 else [P, R, Q]
+        k = rnd.randint(0, 2)
+        tri = tri[k:] + tri[:k]
+        t2 = [[q[0] for q in tri], [q[1] for q in tri]]
+        rot = rnd.randint(0, 3)
+        sh = (Fr(rnd.randint(-3, 3)), Fr(rnd.randint(-3, 3)))
+
+        def mv(rows):
+            xs, ys = rows
+            for _ in range(rot):
+                xs, ys = [-y for y in ys], list(xs)
+            return [[x + sh[0] for x in xs], [y + sh[1] for y in ys]]
+        return mv(t1), mv(t2)
+    raise RuntimeError("no tangent-corner configuration generated")
+
+
 def internal_tangency(rnd):
     """a valid cubic triangle OUTER with an S-shaped first edge (varying second derivative) and a small valid quadratic
     triangle INNER inside it that touches that edge from the inside at exactly one point: parameter 1/2 on the inner edge,
@@ -1157,6 +1200,12 @@ def main():
                 n1, d1, n2, d2 = tang[1], 2, tang[0], 3
                 if rnd.random() < 0.5:
                     n1, d1, n2, d2 = n2, d2, n1, d1
+        elif k % 10 == 2:
+            # a corner of a straight triangle ON a curved edge of the other, one of its edges tangent to the curve there
+            t1q, t2s = tangent_corner_on_curved_edge(rnd)
+            n1, d1, n2, d2 = t1q, 2, t2s, 1
+            if rnd.random() < 0.5:
+                n1, d1, n2, d2 = n2, d2, n1, d1
         elif k % 5 == 3:
             # a corner of a curved triangle in the interior of an edge of a straight one, reached by a curved edge
             t1s, t2q = corner_on_edge_curved(rnd)
